@@ -293,6 +293,8 @@ func searchFieldId(p *thrift.BinaryProtocol, id thrift.FieldID) (tt thrift.Type,
 	// if _, err := p.ReadStructBegin(); err != nil {
 	// 	return 0, start, errNode(meta.ErrReadInput, "", err)
 	// }
+	// a field that is not found is to be inserted at the beginning of THIS struct
+	start = p.Read
 	for {
 		_, t, i, err := p.ReadFieldBegin()
 		if err != nil {
